@@ -12,7 +12,10 @@ def kidsToJson (ks : List Node) : Json :=
 
 def domToJson : Option (Chan.Outcome Node) → Json
   | none => Json.null
-  | some (.ok (.elem t a ks)) => Json.mkObj [("tag", jstr t), ("attrs", pairsToJson a), ("kids", kidsToJson ks)]
+  | some (.ok (.elem t a ks)) =>
+    Json.mkObj [("tag", jstr t), ("attrs", pairsToJson a), ("kids", kidsToJson ks),
+      -- `writexml` of the element as it stands in the compact XForm (`Xml.render`, the serialiser of C05 / C06)
+      ("xml", jstr (render [] [] [] (.elem t a ks)))]
   | some (.ok (.text _ _)) => Json.mkObj [("err", "text-node")]
   | some .pyxformError => Json.mkObj [("err", "pyxform")]
   | some .reparseError => Json.mkObj [("err", "reparse")]
